@@ -156,16 +156,59 @@ def shard(args):
     return acc.export()
 
 
+GAPS = (" ", "\t\n", "  ")
+GAP_ATTS = ((("fg", 31),), (("bold", True), ("fg", 34)), (), (("bg", 42),))
+WORD_ATTS = ((), (("underline", True),), (("fg", 33),), ())
+
+
+def shard_words(args):
+    """Word-structured family: 2..4 words whose lengths range up to 2*columns+1 (words that are exact multiples of the line length,
+    words that need cutting, short words after them), every gap formatted differently from every other gap and from the words."""
+    tier, seed, idx, nshards = args
+    acc = Acc(seed=seed, sample_stride=29989)
+    thorough = tier == "thorough"
+    maxcol = 5 if thorough else 4
+    i = 0
+    for nwords in (2, 3, 4):
+        maxlen = 2 * maxcol + 1 if nwords <= 3 else (6 if thorough else 4)
+        gaps = GAPS if nwords <= 3 else GAPS[:2]
+        for lens in itertools.product(range(1, maxlen + 1), repeat=nwords):
+            for gs in itertools.product(gaps, repeat=nwords - 1):
+                i += 1
+                if i % nshards != idx:
+                    continue
+                spec = []
+                for w, n in enumerate(lens):
+                    spec.append(("abcd"[w] * n, WORD_ATTS[w]))
+                    if w < nwords - 1:
+                        spec.append((gs[w], GAP_ATTS[w]))
+                spec = tuple(spec)
+                text = "".join(t for t, _ in spec)
+                f = C.build(spec)
+                fc = C.cells(f)
+                plain = [(c, ()) for c in text]
+                for columns in range(1, maxcol + 1):
+                    case = {"f": C.show_spec(spec), "columns": columns}
+                    acc.case(True, key=("w", spec, columns), sample=case)
+                    acc.transitions += 2
+                    check(acc, f, fc, columns, case)
+                    check(acc, text, plain, columns, {"text": text, "columns": columns, "as": "str"})
+    return acc.export()
+
+
 def run(ctx):
     rep = Report()
     ns = 256 if ctx.thorough else 64
     for d in ctx.pmap(shard, [(ctx.tier, ctx.seed, i, ns) for i in range(ns)]):
-        rep.merge(d)
+        rep.merge(d, "exhaustive_short_strings")
+    for d in ctx.pmap(shard_words, [(ctx.tier, ctx.seed, i, 64) for i in range(64)]):
+        rep.merge(d, "word_structured")
     rep.validated = rep.n
     full, two, maxcol = (5, 7, 6) if ctx.thorough else (4, 5, 4)
     rep.rule = (
         "every string over {a,b,space,tab,newline} of length <= %d as str and cut into <= 3 runs (empty runs included, P3), of length <= %d as "
-        "str and cut into <= 2 non-empty runs (P2); columns 1..%d. Distinct by construction; non-trivial = the text has a word; states = "
+        "str and cut into <= 2 non-empty runs (P2); columns 1..%d; plus the word-structured family: 2-4 words of every length up to 2*columns+1 with "
+        "three kinds of gap, every gap and word formatted differently, as FmtStr and as str. Distinct by construction; non-trivial = the text has a word; states = "
         "distinct results" % (full, two, maxcol)
     )
     rep.bounds = {"full_cut_len": full, "max_len": two, "max_columns": maxcol}
